@@ -4,12 +4,12 @@
    A3  ownership of the crs arrays (own_data)  : Own.v / OwnProofs.v       (C10_own_...)
    A1  junk independence of the modelled kernels: JunkProofs.v and the proof files of the
        groups that own the kernels                                           (C10_junk_...)
-   A2  bounds-checked re-statement of spmv/residual over flat arrays: LowLevel.v /
-       LowLevelProofs.v                                                      (C10_ll_...)
+   A2  bounds-checked re-statement of spmv / residual / CRS construction / transpose over
+       flat arrays: LowLevel.v, LowLevelProofs.v, LowLevelT.v, LowLevelTProofs.v (C10_ll_...)
    "any S" = for every Scalar record, IEEE floats with NaN payloads included. *)
 From Coq Require Import List.
 From Amgcl Require Import Scalar QcInst Vec Crs Kernels KernelsProofs MatOps MatOpsProofs Relax.
-From Amgcl Require Import Own OwnProofs Junk JunkProofs LowLevel LowLevelProofs.
+From Amgcl Require Import Own OwnProofs Junk JunkProofs LowLevel LowLevelProofs LowLevelT LowLevelTProofs.
 From Amgcl Require Import Aggregates Coarsen CoarsenProofs Direct DirectProofs Krylov KrylovProofs
                           Cheby ChebyProofs Inverse InverseProofs Amg AmgProofs.
 Import ListNotations.
@@ -247,6 +247,37 @@ Theorem C10_ll_unflat_wf (S : Scalar) (F : fcrs S) :
   fwf F -> wf (unflat F) = true /\ nrows (unflat F) = fn F /\ ncols (unflat F) = fm F.
 Proof. exact (unflat_wf F). Qed.
 Print Assumptions C10_ll_unflat_wf.
+
+(* CRS construction (crs(n, m, ptr, col, val), copy constructor, copy assignment): the arrays
+   obtained from new T[..] are completely written before they are read -- the result is the
+   source, whatever the fresh memory contained, and no access leaves an array *)
+Theorem C10_ll_crs_copy (S : Scalar) n (pr cr : list nat) (vr : vec S) (jp jc : list nat) (jv : vec S) :
+  copy_wf n pr cr vr jp jc jv -> ll_crs_copy n pr cr vr jp jc jv = Ok (pr, (cr, vr)).
+Proof. exact (ll_crs_copy_ok n pr cr vr jp jc jv). Qed.
+Print Assumptions C10_ll_crs_copy.
+
+Theorem C10_ll_crs_copy_junk_independent (S : Scalar) n (pr cr : list nat) (vr : vec S)
+  (jp jc jp' jc' : list nat) (jv jv' : vec S) :
+  copy_wf n pr cr vr jp jc jv -> copy_wf n pr cr vr jp' jc' jv' ->
+  ll_crs_copy n pr cr vr jp jc jv = ll_crs_copy n pr cr vr jp' jc' jv'.
+Proof. exact (ll_crs_copy_junk_independent n pr cr vr jp jc jp' jc' jv jv'). Qed.
+Print Assumptions C10_ll_crs_copy_junk_independent.
+
+Theorem C10_ll_crs_copy_no_oob (S : Scalar) n (pr cr : list nat) (vr : vec S) (jp jc : list nat) (jv : vec S) :
+  copy_wf n pr cr vr jp jc jv -> ll_crs_copy n pr cr vr jp jc jv <> ErrOOB.
+Proof. exact (ll_crs_copy_no_oob n pr cr vr jp jc jv). Qed.
+Print Assumptions C10_ll_crs_copy_no_oob.
+
+(* transpose (stable counting sort into zero-filled arrays, LowLevelT.v): on well-formed input
+   no access leaves an array, the result is a well-formed CRS matrix, and it is MatOps.transpose *)
+Theorem C10_ll_transpose (S : Scalar) (F : fcrs S) :
+  fwf F -> exists T, ll_transpose F = Ok T /\ fwf T /\ unflat T = transpose (unflat F).
+Proof. exact (ll_transpose_ok F). Qed.
+Print Assumptions C10_ll_transpose.
+
+Theorem C10_ll_transpose_no_oob (S : Scalar) (F : fcrs S) : fwf F -> ll_transpose F <> ErrOOB.
+Proof. exact (ll_transpose_no_oob F). Qed.
+Print Assumptions C10_ll_transpose_no_oob.
 
 (* non-vacuity: a well-formed flat matrix with an empty row; the checks reject bad input *)
 Example C10_ll_nonvacuous :
